@@ -280,6 +280,9 @@ func (w *Worker) genC04Analyzer(rc *simapi.RunConfig) {
 		}
 	}
 	extra := []int{3, 10, len(hw), len(hw)}[r.Intn(4)]
+	if ex.Lib && extra == len(hw) {
+		extra = 25 // every embedded group builds its own rule engine per package action: a sample, not all 106
+	}
 	if extra == len(hw) {
 		for _, h := range hw {
 			sel[h] = true
